@@ -156,6 +156,8 @@ type c06Outcome struct {
 //	3: A in global + source + destination block of r1 (same instance)
 //	4: A destination block of r1, B destination block of r2
 //	5: A and B global; 6: A and B in the destination block of r1
+var c06PreQuarantined bool
+
 func c06Run(shape int, lmtp bool, vA, vB [4]int) c06Outcome {
 	// same = 1: the second recipient is routed to the destination block of the first
 	same := verifParam("same", 0) == 1
@@ -193,7 +195,8 @@ func c06Run(shape int, lmtp bool, vA, vB [4]int) c06Outcome {
 	d := MsgPipeline{msgpipelineCfg: cfg, Log: log.Logger{}, Hostname: "mx.example.org"}
 	out := c06Outcome{checks: []*c06Check{A, B}}
 	ctx := context.Background()
-	meta := &module.MsgMetadata{ID: "c06", OriginalFrom: "sender@example.net"}
+	// the message may arrive flagged already (an outer pipeline, a queue re-injecting it)
+	meta := &module.MsgMetadata{ID: "c06", OriginalFrom: "sender@example.net", Quarantine: c06PreQuarantined}
 	dl, err := d.Start(ctx, meta, "sender@example.net")
 	if err != nil {
 		out.startErr = true
@@ -265,6 +268,7 @@ func harness_C06_checks() {
 		vB[s] = nondetInt(fmt.Sprintf("B.stage%d", s), 0, 3)
 	}
 	lmtp := verifParam("lmtp", 0) == 1
+	c06PreQuarantined = nondetBool("flaggedOnEntry")
 	out := c06Run(shape, lmtp, vA, vB)
 
 	// ---- which checks apply where ----
@@ -379,10 +383,10 @@ func harness_C06_checks() {
 		if !out.delivered[i] {
 			verifFail("C06.accepted-but-not-delivered")
 		}
-		if anyQuarantine && !out.quar[i] {
+		if (anyQuarantine || c06PreQuarantined) && !out.quar[i] {
 			verifFail("C06.quarantine-not-seen-by-target")
 		}
-		if !issuedQuarantine && out.quar[i] {
+		if !issuedQuarantine && !c06PreQuarantined && out.quar[i] {
 			verifFail("C06.quarantined-without-verdict")
 		}
 	}
